@@ -74,6 +74,29 @@ func evaluate(c *rig.Ctx, cs *Case) verdict {
 	outs := v.real.Outs
 	sort.SliceStable(outs, func(i, j int) bool { return outs[i].Rid < outs[j].Rid })
 
+	for _, pr := range v.real.Problems {
+		v.fails = append(v.fails, failure{kind: "diff", class: "c12.chain-problem", what: pr})
+	}
+	// ---- judge 0: a request that WithUpstreamInfo bound to a cluster (it is proxied there) is decided by that cluster only
+	boundElsewhere := map[int]bool{}
+	for _, o := range outs {
+		if o.Upstream < 0 || o.Own == o.Upstream {
+			continue
+		}
+		isErr := false
+		switch r := o.Res.(type) {
+		case TokRes:
+			isErr = r.K == "err"
+		case SarRes:
+			isErr = r.E != ""
+		}
+		if !isErr || o.Reviewed {
+			boundElsewhere[o.Rid] = true
+			v.fails = append(v.fails, failure{kind: "judge", class: "c12.bound-request-decided-by-other-cluster", impl: o,
+				what: fmt.Sprintf("%s request %d for host %q is bound to cluster instance %d (info.UpstreamCluster, where it is proxied) but was decided by instance %d: %s (reviewed=%v)",
+					o.Kind, o.Rid, rig.UnHex(o.Host), o.Upstream, o.Own, canonRes(o.Res), o.Reviewed)})
+		}
+	}
 	// ---- judge 1 (Go, on the real log): review target
 	for _, o := range outs {
 		for _, h := range o.Hits {
@@ -190,6 +213,8 @@ func evaluate(c *rig.Ctx, cs *Case) verdict {
 			d("request")
 		case x.Inst != o.Own:
 			d("resolved-instance")
+		case x.Upstream != o.Upstream:
+			d("bound-instance")
 		case canonRaw(x.Res, x.Kind) != canonRes(o.Res):
 			d("answer")
 		case x.Time != o.Time:
@@ -373,6 +398,14 @@ func countOutcomes(c *rig.Ctx, v verdict) {
 	}
 	if v.skippedDiff != "" {
 		c.Count("diff skipped: " + v.skippedDiff)
+	}
+	for i := 0; i < v.real.Terminated; i++ {
+		c.Count("bound request ended by WithUpstreamInfo (host not proxied)")
+	}
+	for _, o := range v.real.Outs {
+		if o.Upstream >= 0 && o.Own != o.Upstream {
+			c.Count("bound request whose host resolved elsewhere at the authenticator/authorizer")
+		}
 	}
 }
 
